@@ -28,6 +28,7 @@ Inductive err : Type :=
 | EIdxEmptyBlock   (* "empty state history index block" *)
 | EIdxOrder        (* "index block id is out of order"  *)
 | EScanVarint      (* "corrupted index block, invalid varint" (writer section scan) *)
+| ERestartsCorrupt (* "corrupted index block, restarts" (pop: restarts vs descriptor) *)
 | EPanic           (* Go runtime panic (index/slice out of range) *)
 | EFuel.           (* loop did not finish within the fuel: non-termination suspect *)
 
@@ -36,7 +37,7 @@ Definition err_code (e : err) : Z :=
   | EBlkEmpty => 1 | ENoRestart => 2 | ETruncRestarts => 3 | ERestartOrder => 4
   | ERestartPos => 5 | EZeroId => 6 | EAppendOrder => 7 | EPopOrder => 8
   | EPopNotFound => 9 | EDecodeItem => 10 | EIdxEmpty => 11 | EIdxCorrupt => 12
-  | EIdxEmptyBlock => 13 | EIdxOrder => 14 | EScanVarint => 15 | EPanic => 20 | EFuel => 21
+  | EIdxEmptyBlock => 13 | EIdxOrder => 14 | EScanVarint => 15 | ERestartsCorrupt => 16 | EPanic => 20 | EFuel => 21
   end%Z.
 
 Inductive res (A : Type) : Type :=
@@ -199,6 +200,10 @@ Definition bw_pop (b : bwriter) (id : N) : res bwriter :=
   if id =? 0 then Err EZeroId
   else if negb (id =? d_max d) then Err EPopOrder
   else if d_entries d =? 1 then Ok (mkBW (mkDesc 0 0 (d_id d)) [] [])
+  (* /repo commit a14fc00e: the restart list must agree with the descriptor *)
+  else if Nat.eqb (length (bw_restarts b)) 0
+          || ((d_entries d mod 256 =? 1) && Nat.ltb (length (bw_restarts b)) 2)
+  then Err ERestartsCorrupt
   else if d_entries d mod 256 =? 1 then
     (* b.restarts[len(b.restarts)-1] *)
     do rl <- idx (bw_restarts b) (length (bw_restarts b) - 1);
@@ -466,15 +471,27 @@ Record iwriter : Type := mkIW {
 Definition iw_desc_list (w : iwriter) : list desc :=
   iw_base w ++ map bw_desc (iw_frozen w) ++ [bw_desc (iw_bw w)].
 
-(* common prefix of newIndexWriter/newIndexDeleter for non-empty metadata *)
-Definition open_last (db : idb) (limit : N) : res (list desc * bwriter) :=
+(* common part of newIndexWriter/newIndexDeleter for non-empty metadata; returns
+   (descList without its last entry, live block writer, ids of blocks emptied by
+   the limit).  /repo commit bb1fc7bf: when trimming by the limit empties the last
+   block and an earlier block exists, its descriptor is dropped and the previous
+   block is opened instead. *)
+Definition open_last (db : idb) (limit : N) : res (list desc * bwriter * list N) :=
   do dl0 <- parse_index (db_meta db);
   do dl <- trim_descs (length dl0 - 1) dl0 limit;
   match last_opt dl with
   | None => Err EPanic
   | Some lastDesc =>
       do bw <- new_block_writer (blk_get (db_blocks db) (d_id lastDesc)) lastDesc limit;
-      Ok (removelast dl, bw)
+      if bw_empty bw && Nat.ltb 1 (length dl) then
+        let dl' := removelast dl in
+        match last_opt dl' with
+        | None => Err EPanic
+        | Some prevDesc =>
+            do bw' <- new_block_writer (blk_get (db_blocks db) (d_id prevDesc)) prevDesc limit;
+            Ok (removelast dl', bw', [d_id lastDesc])
+        end
+      else Ok (removelast dl, bw, [])
   end.
 
 (* newIndexWriter (161-204) *)
@@ -482,7 +499,8 @@ Definition new_index_writer (db : idb) (limit : N) : res iwriter :=
   match db_meta db with
   | [] => Ok (mkIW [] [] (mkBW (mkDesc 0 0 0) [] []) 0)
   | _ => do o <- open_last db limit;
-         Ok (mkIW (fst o) [] (snd o) (bw_last (snd o)))
+         let '(base, bw, _) := o in
+         Ok (mkIW base [] bw (bw_last bw))
   end.
 
 (* append (207-222) with rotate (226-238) *)
@@ -519,7 +537,8 @@ Definition new_index_deleter (db : idb) (limit : N) : res ideleter :=
   match db_meta db with
   | [] => Ok (mkID [] (mkBW (mkDesc 0 0 0) [] []) [] 0)
   | _ => do o <- open_last db limit;
-         Ok (mkID (fst o) (snd o) [] (bw_last (snd o)))
+         let '(base, bw, dropped) := o in
+         Ok (mkID base bw dropped (bw_last bw))
   end.
 
 (* pop (337-371); db is the store the deleter was opened on *)
